@@ -109,6 +109,8 @@ pub fn outside_effects(w: &World, out: &ExecOut) -> MResult<Option<(String, Stri
     let before_ids: BTreeSet<(u64, u64)> = inodes(&w.before);
     for (p, n) in &after {
         if before_ids.contains(&(n.dev, n.ino)) { continue; }
+        // created inside (the supervisor recorded it at creation time) and moved elsewhere by the attacker afterwards
+        if out.ever_inside.contains(&(n.dev, n.ino)) { continue; }
         let parent = match p.rfind('/') { Some(i) => &p[..i], None => "" };
         if let Some(pn) = after.get(parent) {
             if !out.ever_inside.contains(&(pn.dev, pn.ino)) {
